@@ -2,6 +2,7 @@ package c04
 
 import (
 	mrand "math/rand"
+	"sync"
 	"time"
 
 	"verif/checks/apworld"
@@ -45,7 +46,6 @@ func registerCrypto() {
 			crypto.DecryptMessage(b, k, 3)
 			e, _ := crypto.GetEtype(et)
 			e.VerifyChecksum(key, []byte("data"), b, 3)
-			e.VerifyIntegrity(key, b, b, 3)
 		}})
 	}
 }
@@ -76,12 +76,16 @@ type flow struct {
 // have been replaced are returned (seed capture).
 func runFlow(f *flow, in []byte, replace bool) (captured []byte) {
 	vclock.Virtual(cworld.T0)
+	vclock.AutoTick = time.Microsecond // two clock readings are never equal, as with a real clock
 	vcrand.Fix(mrand.New(mrand.NewSource(7)))
 	vrand.Script(nil)
 	vnet.Reset()
 	w := cworld.New(f.opts)
 	n := 0
+	var mu sync.Mutex // the simulated KDC is a sequential object; a renewal goroutine may call in concurrently
 	wrap := func(network string, req []byte) []byte {
+		mu.Lock()
+		defer mu.Unlock()
 		idx := n
 		n++
 		if idx == f.replaceAt && f.layer == "enc" {
